@@ -16,7 +16,7 @@ import (
 
 // treesFor yields the trees of a run: the replayed one, or a small exhaustive
 // family followed by seeded random trees.
-func treesFor(c *Ctx, withFindings bool, f func(t []*Ins)) {
+func treesFor(c *Ctx, f func(t []*Ins)) {
 	if in := c.ReplayInput(); in != nil {
 		if h, ok := in["tree"].(string); ok {
 			b, err := hex.DecodeString(h)
@@ -36,15 +36,12 @@ func treesFor(c *Ctx, withFindings bool, f func(t []*Ins)) {
 	for i := 0; i < c.N; i++ {
 		if i%4 == 3 {
 			// Stop, Fatal, panic and recover inside functions called back by native code
-			f(genCallbackTree(c.Rng, withFindings && i%8 == 7))
+			// in half of them the panics may leave the callbacks
+			f(genCallbackTree(c.Rng, i%8 == 7))
 			continue
 		}
-		f(genTree(c.Rng, withFindings))
+		f(genTree(c.Rng))
 	}
-}
-
-func hasCallback(t []*Ins) bool {
-	return treeHas(t, func(in *Ins) bool { return in.Tok == tCallback })
 }
 
 func hasDeferredNativePanic(t []*Ins) bool {
@@ -205,6 +202,8 @@ func knownFindingReproducers(c *Ctx) {
 		{"nil-pointer-field-op", "var p *struct{ a int }; p.a++"},
 		{"nil-pointer-load", "var p *int; _ = *p"},
 		{"nil-pointer-store", "var p *int; *p = 1"},
+		{"nil-pointer-op", "var p *int; *p += 1"},
+		{"nil-struct-pointer-load", "var p *struct{ a int }; _ = *p"},
 		{"nil-array-pointer-set", "var p *[2]int; p[1] = 2"},
 		{"nil-array-pointer-range", "var p *[2]int; for i, x := range p { _, _ = i, x }"},
 		{"defer-nil-func", "var f func(); defer f()"},
@@ -227,24 +226,54 @@ func knownFindingReproducers(c *Ctx) {
 			c.Fail("runtime-fault-no-position", map[string]string{"fault": f.name, "source": src, "path": pe.Path(), "position": pe.Position().String(), "want_line": "4"})
 		}
 	}
-	// a panic that leaves a function called back by native code: Go unwinds through the native frame, the caller recovers it
+	// regression (fix 34a254c, former finding callback-panic-is-fatal): a panic that leaves a function called
+	// back by native code: Go unwinds through the native frame, the caller recovers it; two VMs deep, the
+	// panics of the callback (a recovered one included) reach Run before the panic of the caller
 	tc := []*Ins{{Tok: tDeferFn, Body: []*Ins{{Tok: tRecover}}}, {Tok: tCallback, Body: []*Ins{{Tok: tPanic, N: 7}}}}
 	c.Count("evaluations")
 	if res := runProgramTree(programSource(tc)); !bytes.Equal(res.noLines, []byte{2, 1, 7, 10}) {
-		c.Fail("callback-panic-is-fatal", map[string]string{"tree": hx(encTree(tc, false)), "source": programSource(tc), "got": hx(res.noLines), "want": "0201070a", "host_panic": res.hostMsg})
+		c.Fail("callback-panic-not-recoverable", map[string]string{"tree": hx(encTree(tc, false)), "source": programSource(tc), "got": hx(res.noLines), "want": "0201070a", "host_panic": res.hostMsg})
 	}
-	// a deferred native function that panics: Go adds the panic to the chain (and it can be recovered)
+	tc = []*Ins{{Tok: tDeferFn, Body: []*Ins{{Tok: tCallback, Body: []*Ins{{Tok: tCallback, Body: []*Ins{
+		{Tok: tDeferFn, Body: []*Ins{{Tok: tRecover}, {Tok: tPanic, N: 4}}}, {Tok: tPanic, N: 3}}}}}}}, {Tok: tPanic, N: 1}}
+	c.Count("evaluations")
+	if res := runProgramTree(programSource(tc)); !bytes.Equal(res.noLines, []byte{2, 1, 3, 11, 3, 4, 0, 0, 0, 3, 1, 0, 0, 1, 0, 0, 0}) {
+		c.Fail("callback-panic-not-recoverable", map[string]string{"tree": hx(encTree(tc, false)), "source": programSource(tc), "got": hx(res.noLines), "want": "0201030b03040000000301000001000000", "host_panic": res.hostMsg})
+	}
+	// regression (fix 7a741c2, former finding recovered-panic-stays-in-chain): a panic recovered by
+	// a deferred call leaves the chain although the function has another deferred call, which panics
+	ts := []*Ins{{Tok: tDeferFn, Body: []*Ins{{Tok: tPanic, N: 5}}}, {Tok: tDeferFn, Body: []*Ins{{Tok: tRecover}}}, {Tok: tPanic, N: 2}}
+	c.Count("evaluations")
+	if res := runProgramTree(programSource(ts)); !bytes.Equal(res.noLines, []byte{2, 1, 2, 11, 1, 5, 0, 0, 0}) {
+		c.Fail("recovered-panic-left-in-chain", map[string]string{"tree": hx(encTree(ts, false)), "source": programSource(ts), "got": hx(res.noLines), "want": "0201020b0105000000", "host_panic": res.hostMsg})
+	}
+	// regression (fix cda9c95, former finding nested-recover-drops-active-panic): the recovery of a
+	// nested panic leaves the active panic in the chain although an aborted panic is listed below it
+	td := []*Ins{{Tok: tDeferFn, Body: []*Ins{{Tok: tCall, Body: []*Ins{{Tok: tDeferFn, Body: []*Ins{{Tok: tRecover}}}, {Tok: tPanic, N: 4}}}}},
+		{Tok: tDeferFn, Body: []*Ins{{Tok: tPanic, N: 1}}}, {Tok: tPanic, N: 3}}
+	c.Count("evaluations")
+	if res := runProgramTree(programSource(td)); !bytes.Equal(res.noLines, []byte{2, 1, 4, 11, 2, 1, 0, 0, 0, 3, 0, 0, 0}) {
+		c.Fail("nested-recover-dropped-active-panic", map[string]string{"tree": hx(encTree(td, false)), "source": programSource(td), "got": hx(res.noLines), "want": "0201040b020100000003000000", "host_panic": res.hostMsg})
+	}
+	// regression (fix 6756254, former finding native-defer-panic-host-panic): a deferred native
+	// function that panics: Go adds the panic to the chain (and it can be recovered), when the
+	// function returns and while another panic unwinds
 	t := []*Ins{{Tok: tDeferNat, K: 4, N: 1}}
 	c.Count("evaluations")
 	if res := runProgramTree(programSource(t)); !bytes.Equal(res.noLines, []byte{11, 1, 1, 0, 0, 0}) {
-		c.Fail("native-defer-panic-host-panic", map[string]string{"tree": hx(encTree(t, false)), "source": programSource(t), "got": hx(res.noLines), "want": "0b0101000000", "host_panic": res.hostMsg})
+		c.Fail("native-defer-panic-not-a-panic-error", map[string]string{"tree": hx(encTree(t, false)), "source": programSource(t), "got": hx(res.noLines), "want": "0b0101000000", "host_panic": res.hostMsg})
+	}
+	t = []*Ins{{Tok: tDeferFn, Body: []*Ins{{Tok: tRecover}}}, {Tok: tDeferNat, K: 4, N: 1}, {Tok: tPanic, N: 2}}
+	c.Count("evaluations")
+	if res := runProgramTree(programSource(t)); !bytes.Equal(res.noLines, []byte{2, 1, 1, 10}) {
+		c.Fail("native-defer-panic-not-a-panic-error", map[string]string{"tree": hx(encTree(t, false)), "source": programSource(t), "got": hx(res.noLines), "want": "0201010a", "host_panic": res.hostMsg})
 	}
 }
 
 func registerFrames() {
 	// correspondence: the real VM against the Coq model FramesM (frames_case)
 	Register("C12-cases", func(c *Ctx) {
-		treesFor(c, true, func(t []*Ins) {
+		treesFor(c, func(t []*Ins) {
 			src := programSource(t)
 			res := runProgramTree(src)
 			if res.buildErr != "" {
@@ -262,6 +291,18 @@ func registerFrames() {
 			}
 			c.Line("frames", hx(encTree(tt, true)), "ok:"+hx(tres.enc))
 			c.Count("template")
+			// every third tree also with its function bodies inside range statements
+			// (the bodies of range statements run in a nested call of the VM: runBody)
+			if c.Rng.Intn(3) == 0 {
+				rsrc := programRangeSource(t)
+				rres := runProgramTree(rsrc)
+				if rres.buildErr != "" {
+					c.Fail("generator-build-error", map[string]string{"source": rsrc, "error": rres.buildErr})
+					return
+				}
+				c.Line("frames", hx(encTree(t, true)), "ok:"+hx(rres.enc))
+				c.Count("program_in_range")
+			}
 			c.Count(fmt.Sprintf("outcome_%d", outcomeCode(res.enc)))
 		})
 	})
@@ -270,11 +311,10 @@ func registerFrames() {
 	// every tree, programs built with gc for a sample)
 	Register("C12-sweep", func(c *Ctx) {
 		knownFindingReproducers(c)
+		// Stop and Fatal with a context that is cancelled or expired
+		ctxStopScenarios(c, "")
 		var trees [][]*Ins
-		treesFor(c, false, func(t []*Ins) {
-			if hasDeferredNativePanic(t) && c.ReplayInput() == nil {
-				return
-			}
+		treesFor(c, func(t []*Ins) {
 			trees = append(trees, t)
 		})
 		type flav struct {
@@ -289,14 +329,24 @@ func registerFrames() {
 			var fl []flav
 			src := programSource(t)
 			fl = append(fl, flav{"program", src, runProgramTree(src), hx(encTree(t, true))})
-			reqs = append(reqs, "gospecf\t"+fl[0].treeHx)
+			reqs = append(reqs, "gospec\t"+fl[0].treeHx)
 			mreqs = append(mreqs, "frames\t"+fl[0].treeHx)
 			tt := templateTree(t)
 			tsrc := templateSource(tt)
 			fl = append(fl, flav{"template", tsrc, runTemplateTree(tsrc), hx(encTree(tt, true))})
-			reqs = append(reqs, "gospecf\t"+fl[1].treeHx)
+			reqs = append(reqs, "gospec\t"+fl[1].treeHx)
 			mreqs = append(mreqs, "frames\t"+fl[1].treeHx)
 			all = append(all, fl)
+			// function bodies inside range statements (nested calls of the VM: runBody), compared on the outcome
+			// without lines against the program flavour
+			if len(all)%3 == 0 {
+				rsrc := programRangeSource(t)
+				c.Count("evaluations")
+				if rres := runProgramTree(rsrc); rres.buildErr != "" || !bytes.Equal(rres.noLines, fl[0].res.noLines) {
+					c.Fail("range-body-changes-the-outcome", map[string]string{"tree": hx(encTree(t, false)), "source": rsrc,
+						"in_range": hx(rres.noLines), "plain": hx(fl[0].res.noLines), "build_error": rres.buildErr, "host_panic": rres.hostMsg})
+				}
+			}
 		}
 		want, err := modelDriver(reqs)
 		if err != nil {
@@ -311,14 +361,6 @@ func registerFrames() {
 			c.Fail("model-driver-failed", map[string]string{"error": err.Error()})
 			return
 		}
-		// the answer ends with the two finding-trigger flags of the Go run
-		flags := make([][2]bool, len(want))
-		for i, w := range want {
-			if strings.HasPrefix(w, "ok:") && len(w) >= 7 {
-				flags[i] = [2]bool{w[len(w)-3] == '1', w[len(w)-1] == '1'}
-				want[i] = w[:len(w)-4]
-			}
-		}
 		seen := 0
 		for i, t := range trees {
 			for j, f := range all[i] {
@@ -329,12 +371,13 @@ func registerFrames() {
 				}
 				got := "ok:" + hx(f.res.enc)
 				if got != want[2*i+j] {
-					c.Fail(classifyM(t, flags[2*i+j], got == model[2*i+j], model[2*i+j]), map[string]string{"tree": hx(encTree(t, false)), "flavour": f.name, "source": f.src,
+					c.Fail(classifyM(t, got == model[2*i+j], model[2*i+j]), map[string]string{"tree": hx(encTree(t, false)), "flavour": f.name, "source": f.src,
 						"vm": got, "go_spec": want[2*i+j], "model_of_todays_vm": model[2*i+j], "host_panic": f.res.hostMsg})
 					continue
 				}
 				for _, p := range f.res.paths {
-					if p == "" {
+					// the panic of a deferred native function has no Scriggo position
+					if p == "" && !hasDeferredNativePanic(t) {
 						c.Fail("panic-error-empty-path", map[string]string{"tree": hx(encTree(t, false)), "flavour": f.name, "source": f.src})
 						break
 					}
@@ -386,7 +429,7 @@ func registerFrames() {
 			}
 			vm := all[sampleIdx[k]][0].res
 			if vm.buildErr == "" && "ok:"+hx(vm.noLines) != gc {
-				c.Fail(classifyM(t, flags[2*sampleIdx[k]], "ok:"+hx(vm.enc) == model[2*sampleIdx[k]], model[2*sampleIdx[k]]), map[string]string{"tree": hx(encTree(t, false)), "flavour": "program", "source": all[sampleIdx[k]][0].src,
+				c.Fail(classifyM(t, "ok:"+hx(vm.enc) == model[2*sampleIdx[k]], model[2*sampleIdx[k]]), map[string]string{"tree": hx(encTree(t, false)), "flavour": "program", "source": all[sampleIdx[k]][0].src,
 					"vm": "ok:" + hx(vm.noLines), "gc": gc, "host_panic": vm.hostMsg})
 			}
 		}
@@ -414,35 +457,17 @@ func outcomeCode(enc []byte) int {
 }
 
 // classify names the failure signature of a tree on which the VM disagrees
-// with Go. flags are the finding triggers met by the Go run of the tree
-// (FramesM.go_flags): a deferred call panicked after a recovery in the same
-// activation; a recovery happened while an aborted panic was listed. A known
-// signature is given only when the VM does what the model of today's machine does.
-func classify(t []*Ins, flags [2]bool, equalsModel bool) string {
-	if equalsModel {
-		switch {
-		case hasDeferredNativePanic(t):
-			return "native-defer-panic-host-panic"
-		case flags[1]:
-			return "nested-recover-drops-active-panic"
-		case flags[0]:
-			return "recovered-panic-stays-in-chain"
-		}
-	}
+// with Go. A known signature is given only when the VM does what the model of
+// today's machine does.
+func classify(t []*Ins, equalsModel bool) string {
 	return "trace-or-outcome-differs-from-go"
 }
 
 // classifyM: as classify; modelAns is the answer of the model of today's
-// machine (ok:<hex of trace and outcome>). A panic that left a function
-// called back by native code (outcome 16 of the model) is the known finding
-// callback-panic-is-fatal, again only when the VM does what the model does.
-func classifyM(t []*Ins, flags [2]bool, equalsModel bool, modelAns string) string {
-	if equalsModel && hasCallback(t) && strings.HasPrefix(modelAns, "ok:") {
-		if b, err := hex.DecodeString(modelAns[3:]); err == nil && outcomeCode(b) == 16 {
-			return "callback-panic-is-fatal"
-		}
-	}
-	return classify(t, flags, equalsModel)
+// machine (ok:<hex of trace and outcome>). No deviation from Go is a known
+// finding any more.
+func classifyM(t []*Ins, equalsModel bool, modelAns string) string {
+	return classify(t, equalsModel)
 }
 
 func init() {
@@ -469,12 +494,11 @@ func init() {
 		if c.Tier == "thorough" {
 			small := shrinkTree(t, func(v []*Ins) bool {
 				r := runProgramTree(programSource(v))
-				o, err := modelDriver([]string{"gospecf\t" + hx(encTree(v, true))})
-				if err != nil || r.buildErr != "" || len(o[0]) < 7 {
+				o, err := modelDriver([]string{"gospec\t" + hx(encTree(v, true))})
+				if err != nil || r.buildErr != "" {
 					return false
 				}
-				w := o[0]
-				return "ok:"+hx(r.enc) != w[:len(w)-4] && w[len(w)-4:] == "0000" && !hasDeferredNativePanic(v)
+				return "ok:"+hx(r.enc) != o[0]
 			})
 			fmt.Printf("shrunk: %s\n%s", hx(encTree(small, false)), programSource(small))
 		}
